@@ -308,7 +308,10 @@ class TopLevelVisitor(ast.NodeVisitor):
                         node.test.left.id == '__name__',
                         node.test.comparators[0].value == '__main__',
                     ]):
-                        # Ignore main block
+                        # Ignore main block, but not its else branch,
+                        # which is what runs when the module is imported
+                        for child in node.orelse:
+                            self.visit(child)
                         return
                 else:
                     if all([
@@ -316,7 +319,10 @@ class TopLevelVisitor(ast.NodeVisitor):
                         node.test.left.id == '__name__',
                         node.test.comparators[0].s == '__main__',
                     ]):
-                        # Ignore main block
+                        # Ignore main block, but not its else branch,
+                        # which is what runs when the module is imported
+                        for child in node.orelse:
+                            self.visit(child)
                         return
             except Exception:  # nocover
                 pass
@@ -330,7 +336,9 @@ class TopLevelVisitor(ast.NodeVisitor):
                     left_value == '__main__',
                     node.test.comparators[0].id == '__name__',
                 ]):
-                    # Ignore main block
+                    # Ignore main block, but not its else branch
+                    for child in node.orelse:
+                        self.visit(child)
                     return
             except Exception:  # nocover
                 pass
